@@ -436,6 +436,8 @@ func (p *PitCsTree) eraseCsDataFromReplacementStrategy(index uint64) {
 		entry.node.csEntry = nil
 		delete(p.csMap, index)
 		p.nCsEntries--
+		// do not leave a dead branch behind the evicted entry
+		entry.node.pruneIfEmpty()
 	}
 }
 
